@@ -21,6 +21,7 @@ def main():
     a = sys.argv[1:]
     out, prop, demodir = a[0], a[1], a[2]
     extra_env, flags, nosuite, files_mode = {}, [], False, False
+    forced_name = None
     i = 3
     while i < len(a):
         if a[i] == "--env":
@@ -31,9 +32,13 @@ def main():
             nosuite = True; i += 1
         elif a[i] == "--files":
             files_mode = True; i += 1
+        elif a[i] == "--name":
+            forced_name = a[i + 1]; i += 2
         else:
             i += 1
     name = os.path.basename(os.path.dirname(out.rstrip("/"))).replace(".out", "") + "-" + os.path.basename(out.rstrip("/"))
+    if forced_name:
+        name = forced_name
     wt = f"/tmp/seedchk/{name}"
     os.makedirs("/tmp/seedchk", exist_ok=True)
     subprocess.run(["git", "-C", "/repo", "worktree", "remove", "--force", wt], capture_output=True)
